@@ -44,6 +44,7 @@ type hsParams struct {
 	staleBA                  [][]byte
 	serverFirst, clientFirst bool
 	sendData                 bool
+	serverSendsFirst         bool // after both handshakes the server sends a message before the client does
 	r                        *rng
 	randomFaults             int // number of random fault decisions after the script
 }
@@ -57,6 +58,8 @@ type hsResult struct {
 	clientErr                bool
 	virtual                  time.Duration
 	checkedAfter, flowsAfter bool
+	checkedBack, backArrived bool
+	backTook                 time.Duration
 	rtSeen                   [2]bool
 	rtAfterHs                [2]time.Duration
 	synTx                    [2]int
@@ -95,6 +98,7 @@ func runHandshakeScenario(t *testing.T, l *evlog, q *oracle, cfg simCfg, p hsPar
 		idx := [2]int{}
 		faults := 0
 		sent := false
+		srvSent := false
 		start := time.Now()
 		for it := 0; it < 4000 && time.Since(start) < 150*time.Second; it++ {
 			moved := false
@@ -132,6 +136,19 @@ func runHandshakeScenario(t *testing.T, l *evlog, q *oracle, cfg simCfg, p hsPar
 					}
 					l.mu.Unlock()
 				}
+			}
+			if p.serverSendsFirst && !srvSent && s.hsReturned(0) && s.hsErr[0] == nil && s.hsReturned(1) && s.hsErr[1] == nil {
+				// the first data-phase packet toward the client is a DATA packet of the server
+				srvSent = true
+				s.recv(0)
+				s.send(1, []byte("server-first"))
+				continue
+			}
+			if p.serverSendsFirst && srvSent && len(s.recvMsgs[0]) == 0 && time.Since(start) < 100*time.Second {
+				if !moved {
+					s.advance(250 * time.Millisecond)
+				}
+				continue
 			}
 			if s.hsReturned(0) && s.hsErr[0] == nil && p.sendData && !sent {
 				sent = true
@@ -182,6 +199,33 @@ func runHandshakeScenario(t *testing.T, l *evlog, q *oracle, cfg simCfg, p hsPar
 				}
 			}
 			res.flowsAfter = len(s.recvMsgs[1]) >= 2
+			// ... and the other way: the first server->client message arrives on its first transmission (nothing
+			// is dropped here; a read left over from the handshake would swallow it and cost a resend timeout)
+			if res.flowsAfter {
+				if _, rb := s.busy(0); !rb {
+					s.recv(0)
+				}
+				if sb, _ := s.busy(1); !sb {
+					before := len(s.recvMsgs[0])
+					t0 := time.Now()
+					s.send(1, []byte("back"))
+					for it := 0; it < 40 && len(s.recvMsgs[0]) == before; it++ {
+						moved := false
+						for x := 0; x < 2; x++ {
+							if s.canOp(x) {
+								s.op(x, "deliver")
+								moved = true
+							}
+						}
+						if !moved {
+							s.advance(50 * time.Millisecond)
+						}
+					}
+					res.checkedBack = true
+					res.backArrived = len(s.recvMsgs[0]) > before
+					res.backTook = time.Since(t0)
+				}
+			}
 		}
 		res.virtual = time.Since(start)
 		for x := 0; x < 2; x++ {
@@ -253,6 +297,28 @@ func TestGenC10(t *testing.T) {
 		if res.checkedAfter && !foreign && onlyHs {
 			q.stat("completed_then_second_message", 1)
 			q.check(res.flowsAfter, "c10:completed-then-broken-by-late-handshake-packet:"+p.class, desc)
+			if p.class == "late-answers" || p.class == "handshake-loss-only" {
+				// the script only touches handshake packets: in the data phase nothing is lost, so nothing is
+				// transmitted twice (a read left behind by the handshake swallows the first packet it sees)
+				seen := map[string]int{}
+				dup := ""
+				for _, e := range l.keep {
+					if strings.HasPrefix(e, "TX 0 02") || strings.HasPrefix(e, "TX 1 02") {
+						seen[e]++
+						if seen[e] == 2 && dup == "" {
+							dup = e
+						}
+					}
+				}
+				q.check(dup == "", "c10:data-retransmitted-although-only-handshake-packets-were-lost:"+p.class, func() string {
+					return desc() + "; retransmitted: " + dup
+				})
+			}
+			if res.checkedBack {
+				q.check(res.backArrived && res.backTook < 900*time.Millisecond, "c10:first-packet-toward-the-client-lost-after-handshake:"+p.class, func() string {
+					return desc() + fmt.Sprintf("; the server's first message over a loss-free transport: arrived=%v after %v (a resend timeout is 1 s)", res.backArrived, res.backTook)
+				})
+			}
 		}
 		// C20 at the handshake: a side that transmitted its SYN more than once cannot tell which copy the answer
 		// belongs to, so the handshake gives it no round-trip sample: its resend timeout is still the default
@@ -342,6 +408,16 @@ func TestGenC10(t *testing.T) {
 			cfg := mk(n, false)
 			p := hsParams{class: "late-answers", pattern: pat, sendData: true}
 			check(cfg, p, runHandshakeScenario(t, l, q, cfg, p), false)
+		}
+	}
+	// (a3) loss confined to the handshake: the first SYN, the first echo, or both
+	for _, pat := range [][2][]string{{{"drop"}, {}}, {{}, {"drop"}}, {{"drop"}, {"drop"}}, {{"drop", "drop"}, {}}} {
+		for _, n := range []int{2, 20} {
+			for _, ka := range []bool{false, true} {
+				cfg := mk(n, ka)
+				p := hsParams{class: "handshake-loss-only", pattern: pat, sendData: true, serverSendsFirst: n == 20}
+				check(cfg, p, runHandshakeScenario(t, l, q, cfg, p), false)
+			}
 		}
 	}
 	// (b) all client window sizes
